@@ -58,6 +58,7 @@ class Line:
         self.connect_ok = True
         self.hook = None          # scheduler hook (C15)
         self.pending = []         # [arrival time, bytes]: replies still in flight (latency)
+        self.epoch = 0            # connection counter: a late reply can only arrive on the connection it was sent on
 
     def deliver_due(self, horizon):
         """move replies whose (virtual) arrival time is <= horizon into rx; returns the earliest arrival used"""
@@ -185,6 +186,7 @@ class Patches:
                 raise OSError("scripted connect failure")
             line.rx.clear()
             del line.pending[:]          # a new connection is a new byte stream: nothing of the old one can arrive on it
+            line.epoch += 1
             return FakeSocket(line)
 
         def fsocket(*a, **k):
@@ -192,6 +194,7 @@ class Patches:
                 raise OSError("scripted connect failure")
             line.rx.clear()
             del line.pending[:]
+            line.epoch += 1
             return FakeSocket(line)
 
         def inet_pton(*a):
@@ -222,6 +225,7 @@ class Patches:
                 raise serial.SerialException("scripted connect failure")
             line.rx.clear()
             del line.pending[:]          # re-opening the port flushes its buffers
+            line.epoch += 1
             return FakeSerial(line, k.get("timeout", 1))
         for mod, name, val in ((CS, "socket", fsock), (CS, "select", fsel), (CS, "time", ftime), (TX, "time", ftime),
                                (RF, "time", ftime), (serial, "Serial", fserial)):
@@ -341,6 +345,7 @@ class Transaction:
                 uid = (uid % 200) + 7       # some unit ids put a brace into the CRC of a constant frame: move on
         req = mk(uid)
         fed = []
+        late = []
         attempt = {"k": 0}
         line = self.line
 
@@ -376,8 +381,8 @@ class Transaction:
             elif o == "foreign":
                 add_stale()
             elif o == "late":
-                # the reply is on its way but arrives only after the client has given up waiting
-                line.pending.append([self.clock.t + 30.0, frame(tid, uid, rsp)])
+                # the reply is on its way but arrives only after the client has given up waiting (delivered when execute() has returned)
+                late.append((line.epoch, frame(tid, uid, rsp)))
             elif o == "short":
                 full = frame(tid, uid, rsp)
                 out["rx"] = full[:rng.randint(1, len(full) - 1)]
@@ -418,6 +423,10 @@ class Transaction:
         except Exception as ex:
             res["kind"], res["exc"] = "raised", type(ex).__name__
         self.dec.raw.clear()
+        for ep, fr in late:
+            # it arrives now - if the connection it was sent on still exists
+            if ep == line.epoch and getattr(self.c, "socket", None) is not None:
+                line.rx += fr
         return {"uid": uid, "fc": reqpdu[0], "pdu": list(reqpdu), "script": list(script), "fed": fed,
                 "writes": [list(w) for w in line.writes[w0:]], "reads": line.reads[r0:], "result": res,
                 "connfail": 0 if connect_ok else 1, "exact": exact, "pending_at_start": pending0, "vtime": round(self.clock.t - t_start, 3)}
